@@ -13,7 +13,7 @@ from schema import (HAND, emit_schema, F_MULTI, F_TITLE, F_LIST, o_int, o_float,
 SCHEMA = [
     o_int("a", 1), o_str("s", "sd"), o_list("int", "l", "{1, 2}"), o_float("f", "0.5"),
     o_sec("sec", [o_int("x", 7), o_str("y", "why")], F_MULTI | F_TITLE), o_sec("single", [o_int("x", 7)]),
-    o_func("include", "include"), o_func("fn"),
+    o_func("include", "include"), o_func("fn"), o_int("dep", 1, 512), o_list("str", "depl", "{x}", 512 | 1024),
     # sacrificial options: only aborting texts mention them; the comparison ignores them
     o_int("zi", 0), o_float("zf", "0"), o_str("zs", "z"), o_list("str", "zl", None),
 ]
@@ -23,6 +23,7 @@ SACRIFICIAL = {"zi", "zf", "zs", "zl"}
 EVENTS = [
     ("accepted", "parse", "a = 2\nl += 3\nsec t { x = 1 }\n"),
     ("accepted-2", "parse", "s = \"two words\"\nsingle { x = 8 }\nfn(p, q)\n"),
+    ("accepted-deprecated", "parse", "dep = 3\ndepl = {y}\n"),
     ("ends-in-dq", "abort", "zs = \"abc"),
     ("ends-in-dq-at-name", "abort", "\"abc def\nghi"),
     ("ends-in-sq", "abort", "zs = 'abc"),
@@ -50,6 +51,7 @@ PROBES = [
     "a = 5 /* open",
     "a = zz\n",
     "a = 7\n",
+    "dep = 2\n# c\ndepl += z\n",
 ]
 FILES = {
     "c08_bad.conf": "zi = x\n", "c08_self.conf": "include(\"c08_self.conf\")\n", "c08_unterm.conf": "zs = \"never closed",
@@ -80,7 +82,7 @@ class C08:
     assumptions = ["aborting texts only mention sacrificial options (an aborted parse may leave earlier items applied)",
                    "each run is a fresh child process of the fork server (the scanner has never run in it)"]
 
-    def script(self, events):
+    def script(self, events, only_probe=None):
         fx = fixture_dir()
         base = os.path.join(fx, "c08")
         s = Script()
@@ -121,6 +123,8 @@ class C08:
             s.add("init", cur, 0, 0)
             alive[cur] = True
         for k, p in enumerate(PROBES):
+            if only_probe is not None and k != only_probe:
+                continue
             ip = s.add("parse_buf", cur, hx(p))
             obs.append(("probe%d" % k, ip, s.add("dump", cur)))
         for h in (1, 2):
@@ -128,6 +132,21 @@ class C08:
                 s.add("free", h)
         ia = s.add("allocstat")
         return s, obs, ia
+
+    _alone = None
+
+    def alone(self, get_ex):
+        if C08._alone is None:
+            out = []
+            for k in range(len(PROBES)):
+                saved = list(PROBES)
+                s, obs, ia = self.script([], only_probe=k)
+                r = get_ex("asan", 10).run(s)
+                t = by_index(r.trace)
+                e = t[obs[0][1]]
+                out.append((e["rc"], [(f, l) for f, l, m in unhex_diag(e)]))
+            C08._alone = out
+        return C08._alone
 
     def check_case(self, case, get_ex):
         events = [EVENTS[k] for k in case["history"]]
@@ -165,6 +184,17 @@ class C08:
                 fail = Failure("tree-differs/after-%s" % (aborts[-1] if aborts else "none"), "history %r: tree after %s differs from the reference run\n%r\nvs\n%r" % (
                     names, n1, strip(t1[id1]["tree"]), strip(t2[id2]["tree"])))
                 break
+        if fail is None:
+            # return code and diagnostics of every probe do not depend on what was parsed before at all (the probe texts are
+            # acceptable in every state): compare with the probe parsed alone into a fresh context of a fresh process
+            alone = self.alone(get_ex)
+            for k, (n1, ip1, id1) in enumerate(o1[-len(PROBES):]):
+                e1 = t1[ip1]
+                got = (e1["rc"], [(f, l) for f, l, m in unhex_diag(e1)])
+                if got != alone[k]:
+                    fail = Failure("probe-differs-from-fresh-context/probe%d" % k, "history %r: probe %d %r gives rc/diagnostics %r; alone in a fresh context %r" % (
+                        names, k, PROBES[k], got, alone[k]))
+                    break
         if fail is None:
             x1, x2 = t1[a1], t2[a2]
             if x1["incptr"] != 0 or x1["streams"] != 0 or x1["live"] != 0:
